@@ -69,6 +69,20 @@ pub struct Sc {
     /// io::copy wrapper does): flushing must not change what is collected.
     #[serde(default)]
     pub flush_every: Option<usize>,
+    /// what happens to the two objects after `clone_after`: 0 = carry on with
+    /// the clone, the original is dropped; 1 = carry on with the original, the
+    /// clone stays alive (a checkpoint); 2 = carry on with the clone, the
+    /// original stays alive
+    #[serde(default)]
+    pub clone_mode: u8,
+    /// a second, independent stream object fed in turn with the first: before
+    /// every write to the stream under test it receives the next `twin_chunk`
+    /// bytes of its own (well-formed) stream, and a further stream object is
+    /// created and dropped.  Both must collect their own entries.
+    #[serde(default)]
+    pub twin_entries: Vec<Entry>,
+    #[serde(default)]
+    pub twin_chunk: usize,
 }
 
 pub struct Rendered {
@@ -332,6 +346,11 @@ struct Mon<'a> {
     work_calls: u64,
     work_ratio_milli: u64,
     work_worst: (u64, u64),
+    /// objects kept alive next to the stream under test (clones, originals)
+    keep: Vec<SummaryStream>,
+    twin: Option<SummaryStream>,
+    twin_bytes: Vec<u8>,
+    twin_pos: usize,
 }
 
 impl<'a> Mon<'a> {
@@ -389,6 +408,27 @@ impl<'a> Write for Mon<'a> {
             "cut-inside-multibyte" => self.probes.push("cut-inside-multibyte"),
             "cut-inside-separator" => self.probes.push("cut-inside-separator"),
             _ => {}
+        }
+        if let Some(t) = self.twin.as_mut() {
+            // another stream object appears and goes away, and the twin gets its next bytes
+            let fresh = if self.writes.len() % 2 == 0 { SummaryStream::new() } else { SummaryStream::default() };
+            drop(fresh);
+            if self.twin_pos < self.twin_bytes.len() {
+                let c = self.sc.twin_chunk.max(1).min(self.twin_bytes.len() - self.twin_pos);
+                let r = t.write(&self.twin_bytes[self.twin_pos..self.twin_pos + c]);
+                if !matches!(r, Ok(n) if n == c) && self.violation.is_none() {
+                    self.violation = Some(Violation::new(
+                        "twin-stream-disturbed",
+                        format!(
+                            "a second, independent stream fed in turn with the first: its write of {} bytes at offset {} of its own well-formed stream returned {:?}",
+                            c,
+                            self.twin_pos,
+                            r.map_err(|e| e.to_string())
+                        ),
+                    ));
+                }
+                self.twin_pos += c;
+            }
         }
         let w0 = crate::alloc_meter::work_bytes();
         let res = self.stream.write(buf);
@@ -467,7 +507,14 @@ impl<'a> Write for Mon<'a> {
                 if self.sc.clone_after == Some(k) {
                     self.probes.push("stream-cloned-mid-delivery");
                     let c = self.stream.clone();
-                    self.stream = c;
+                    match self.sc.clone_mode {
+                        1 => self.keep.push(c),
+                        2 => {
+                            let original = std::mem::replace(&mut self.stream, c);
+                            self.keep.push(original);
+                        }
+                        _ => self.stream = c,
+                    }
                 }
                 if let Some(fl) = self.sc.flush_every {
                     if fl > 0 && k % fl == 0 {
@@ -628,6 +675,9 @@ impl Property for C09 {
                 drain_every: if rng.chance(1, 2) { Some(1) } else { None },
                 from_default: false,
                 flush_every: None,
+                clone_mode: 0,
+                twin_entries: Vec::new(),
+                twin_chunk: 0,
             };
             let len = render(&sc).bytes.len();
             let lens: Vec<usize> = match rng.below(4) {
@@ -667,7 +717,15 @@ impl Property for C09 {
             drain_every: if rng.chance(1, 4) { Some(rng.urange(1, 4)) } else { None },
             from_default: rng.chance(1, 4),
             flush_every: if rng.chance(1, 4) { Some(rng.urange(1, 3)) } else { None },
+            clone_mode: rng.below(3) as u8,
+            twin_entries: Vec::new(),
+            twin_chunk: 0,
         };
+        if rng.chance(1, 4) {
+            let k = rng.urange(1, 2);
+            sc.twin_entries = (0..k).map(|_| gen_entry(rng, false, false)).collect();
+            sc.twin_chunk = *rng.pick(&[1usize, 1, 2, 3, 5, 16]);
+        }
         let rend = render(&sc);
         match driver {
             Driver::Direct => {
@@ -724,7 +782,22 @@ impl Property for C09 {
             work_calls: 0,
             work_ratio_milli: 0,
             work_worst: (0, 0),
+            keep: Vec::new(),
+            twin: None,
+            twin_bytes: Vec::new(),
+            twin_pos: 0,
         };
+        if !sc.twin_entries.is_empty() {
+            ctx.fault("interleaved_objects");
+            mon.twin_bytes = render(&Sc {
+                entries: sc.twin_entries.clone(),
+                bad: None,
+                twin_entries: Vec::new(),
+                ..sc.clone()
+            })
+            .bytes;
+            mon.twin = Some(SummaryStream::new());
+        }
         let mut upstream_fault = false;
         match sc.driver {
             Driver::Direct => {
@@ -820,6 +893,36 @@ impl Property for C09 {
         if let Some(v) = mon.violation.take() {
             return Err(v);
         }
+        // the twin: give it the rest of its stream, then it must hold exactly its own entries
+        if let Some(mut t) = mon.twin.take() {
+            ctx.probe("twin-stream-fed-in-turn");
+            if mon.twin_pos < mon.twin_bytes.len() {
+                let rest = &mon.twin_bytes[mon.twin_pos..];
+                let r = t.write(rest);
+                ensure!(
+                    matches!(r, Ok(n) if n == rest.len()),
+                    "twin-stream-disturbed",
+                    "the independent second stream: final write of {} bytes returned {:?}",
+                    rest.len(),
+                    r.map_err(|e| e.to_string())
+                );
+            }
+            ensure!(
+                t.entries().len() == sc.twin_entries.len(),
+                "twin-stream-disturbed",
+                "the independent second stream collected {} entries from its own {}-entry stream",
+                t.entries().len(),
+                sc.twin_entries.len()
+            );
+            ensure!(
+                t.to_string().as_bytes() == &mon.twin_bytes[..],
+                "twin-stream-disturbed",
+                "the independent second stream prints {:?}, its own stream is {:?}",
+                t.to_string(),
+                String::from_utf8_lossy(&mon.twin_bytes)
+            );
+        }
+        drop(std::mem::take(&mut mon.keep));
         if upstream_fault {
             // deliberate, narrow relaxation: the property is silent about
             // truncated streams; the prefix invariants above were enforced.
@@ -876,6 +979,45 @@ impl Property for C09 {
                     printed.len(),
                     bytes.len()
                 );
+                // ... also when the text goes to a sink that prints another entry from
+                // inside write_str (a nested use of Display on the same thread)
+                if !sc.twin_entries.is_empty() && got_len > 0 && mon.drained.is_empty() {
+                    struct Sink<'a> {
+                        out: String,
+                        other: &'a pkgsrc::summary::Summary,
+                        inner: Vec<String>,
+                    }
+                    impl std::fmt::Write for Sink<'_> {
+                        fn write_str(&mut self, s: &str) -> std::fmt::Result {
+                            if self.inner.len() < 3 {
+                                self.inner.push(self.other.to_string());
+                            }
+                            self.out.push_str(s);
+                            Ok(())
+                        }
+                    }
+                    let mut other = pkgsrc::summary::Summary::new();
+                    other.set_pkgname("nested-1.0");
+                    other.set_comment("printed from inside write_str");
+                    other.push_depends("x-[0-9]*");
+                    let other_text = other.to_string();
+                    let mut sink = Sink {
+                        out: String::new(),
+                        other: &other,
+                        inner: Vec::new(),
+                    };
+                    use std::fmt::Write as _;
+                    let _ = write!(sink, "{}", mon.stream);
+                    ctx.probe("printed-through-a-reentrant-sink");
+                    ensure!(
+                        sink.out.as_bytes() == &bytes[..] && sink.inner.iter().all(|t| *t == other_text),
+                        "print-differs-from-stream",
+                        "printed through a sink that prints another entry from inside write_str: {} bytes (stream: {} bytes); nested prints {:?}",
+                        sink.out.len(),
+                        bytes.len(),
+                        sink.inner
+                    );
+                }
                 // re-feeding the output through another partition gives the same entries
                 match feed_direct(printed.as_bytes(), &sc.refeed) {
                     Ok(s2) => {
